@@ -14,9 +14,11 @@ import (
 // It only proposes steps; execution/recording is RunHistories, judging is TLC.
 
 type gen struct {
-	r    *rand.Rand
-	pool []*modeling.Mesh
-	maxV int
+	r          *rand.Rand
+	pool       []*modeling.Mesh
+	maxV       int
+	windowData [][]int // current shared backing array of SetAttrWindow steps
+	windowKey  akey
 }
 
 func raw(v any) json.RawMessage {
@@ -214,7 +216,29 @@ func (g *gen) step() Step {
 		return Step{Op: op, Dst: dst, Src: []int{s}, Args: a}
 	}
 	al := m.AttributeLength()
-	switch g.r.Intn(37) {
+	switch g.r.Intn(41) {
+	case 37, 38:
+		gens := [][]int{{3, 2, 2, 2, 0}, {3, -4, 6, 8, 1}, {4, 2, 4, 6, 0}, {1, 2, 3, 4, 0}, {5, 2, 5, 0, 0}, {9, 2, 0, 0, 1}, {6, 2, 5, 0, 0}, {3, 2, -2, 2, 0}}
+		c := gens[g.r.Intn(len(gens))]
+		return Step{Op: "Prim", Dst: dst, Src: []int{}, Args: args("gen", c[0], "p", c[1:])}
+	case 39, 40:
+		k := attrPool[g.r.Intn(len(attrPool))]
+		total := al + 1 + g.r.Intn(6)
+		if g.windowData == nil || g.r.Intn(3) == 0 || len(g.windowData) < al || len(g.windowData[0]) != k.ar {
+			g.windowData = make([][]int, total)
+			for i := range g.windowData {
+				g.windowData[i] = g.vecN(k.ar)
+			}
+			g.windowKey = k
+		}
+		n := al
+		if al == 0 {
+			n = 1 + g.r.Intn(len(g.windowData))
+		}
+		if n > len(g.windowData) {
+			n = len(g.windowData)
+		}
+		return un("SetAttrWindow", args("ar", g.windowKey.ar, "id", g.windowKey.id, "data", g.windowData, "n", n))
 	case 34, 35, 36:
 		return un("Misc", args("kind", 1+g.r.Intn(11), "k", g.r.Intn(5)))
 	case 30:
